@@ -2,7 +2,7 @@ import AasVerif.Model.SdkVerify
 /-!
 Helper lemmas for C08 (c): what the emitted `if not …: yield Error(…)` blocks report.
 -/
-namespace AasVerif.Sdk
+namespace AasVerif.SdkV
 open AasVerif AasVerif.Expr
 
 /-- the invariant evaluates to a falsy value on `self` -/
@@ -86,4 +86,4 @@ theorem verifyInvs_raises (ρ : Env) (self : Val) :
     | indexError => simp [hev, VRes.raise] at h; subst h; exact ⟨inv, List.mem_cons_self, hev, by intro v; simp⟩
     | otherError => simp [hev, VRes.raise] at h; subst h; exact ⟨inv, List.mem_cons_self, hev, by intro v; simp⟩
 
-end AasVerif.Sdk
+end AasVerif.SdkV
